@@ -47,25 +47,44 @@ func ruleDescent(c *Ctx) {
 		}
 		return false
 	}
-	for _, f := range c.P.SrcFuncs {
-		if f.Pkg != c.P.Main || len(f.Blocks) == 0 {
-			continue
-		}
-		notLeaf := boolEdges(f, false, func(x ssa.Value) bool {
+	notLeafOf := func(f *ssa.Function) []succEdge {
+		e := boolEdges(f, false, func(x ssa.Value) bool {
 			fv, _ := lastField(x)
 			return fv != nil && fv.Name() == "isLeaf"
 		})
-		notLeaf = append(notLeaf, eqEdges(f, false, func(x, y ssa.Value) bool {
+		return append(e, eqEdges(f, false, func(x, y ssa.Value) bool {
 			k, ok := constInt(y)
 			fv, _ := lastField(x)
 			return ok && k == 1 && fv != nil && fv.Name() == "IsLeaf"
 		})...)
-		if len(notLeaf) == 0 {
+	}
+	// a helper that computes the child index for its caller runs in the caller's not-a-leaf context
+	inCtx := map[*ssa.Function]bool{}
+	for _, f := range c.P.SrcFuncs {
+		if f.Pkg != c.P.Main || len(f.Blocks) == 0 || len(notLeafOf(f)) > 0 {
+			continue
+		}
+		sites := c.P.CallersOf(f)
+		all := len(sites) > 0
+		for _, s := range sites {
+			e := notLeafOf(s.Parent())
+			if len(e) == 0 || !edgesDominate(s.Parent(), e, s.Block()) {
+				all = false
+			}
+		}
+		inCtx[f] = all
+	}
+	for _, f := range c.P.SrcFuncs {
+		if f.Pkg != c.P.Main || len(f.Blocks) == 0 {
+			continue
+		}
+		notLeaf := notLeafOf(f)
+		if len(notLeaf) == 0 && !inCtx[f] {
 			continue
 		}
 		k := 0
 		for _, ifi := range ifsOf(f) {
-			if !edgesDominate(f, notLeaf, ifi.Block()) {
+			if !inCtx[f] && !edgesDominate(f, notLeaf, ifi.Block()) {
 				continue
 			}
 			a := decomposeIf(ifi)
